@@ -37,7 +37,7 @@ func nestedSpecs(r *Run, detach bool, oracles []string) []Spec {
 			Spec{Name: "nested-map-cross", Kind: "nested", T: 256, Keys: 2, Classes: []string{"t", "h", "M"}, Oracles: oracles, Extra: ex(1, 2, 3, 2, 2)},
 			Spec{Name: "nested-wrapped", Kind: "nested", T: 256, Keys: 2, Classes: []string{"t", "h", "s:A", "s:M"}, Oracles: oracles, Extra: ex(0, 2, 3, 2, 2), Depth: 0},
 			Spec{Name: "nested-depth3", Kind: "nested", T: 256, Keys: 1, Classes: []string{"h", "A", "M"}, Oracles: oracles, Extra: ex(0, 1, 2, 3, 3)},
-			Spec{Name: "nested-compact", Kind: "nested", T: 256, Keys: 1, Classes: []string{"Mc:t,t", "t"}, Oracles: oracles, Extra: ex2(0, 3, 2, 3, 2)},
+			Spec{Name: "nested-compact", Kind: "nested", T: 256, Keys: 1, Classes: []string{"Mc:t,t", "t"}, Oracles: oracles, Extra: ex2(0, 2, 2, 3, 2)},
 			// children that hold values too large to inline (the child allocates a slab of its own while it is
 			// itself stored inline in the parent, or not)
 			Spec{Name: "nested-ext-arr", Kind: "nested", T: 256, Keys: 2, Classes: []string{"t", "limA+", "A"}, Oracles: oracles, Extra: ex(0, 2, 2, 2, 2)},
